@@ -427,4 +427,570 @@ Section AsmFaithful.
           -- cbn [missing_required]. rewrite Hmiss. rewrite andb_false_r. reflexivity.
         * apply andb_prop in Hfit. destruct Hfit as [Hopt Hrest]. apply Habsent; assumption.
   Qed.
+
+  Lemma find_rkey_found : forall fs, names_nodup (map f_rkey fs) = true ->
+    forall f, In f fs -> find_rkey (f_rkey f) fs = Some (f_name f).
+  Proof.
+    induction fs as [|p fs IH]; intros Hnd f Hin; [contradiction|].
+    cbn [map] in Hnd. destruct (nodup_head _ _ Hnd) as [Hfresh Hnd'].
+    cbn [find_rkey]. destruct Hin as [->|Hin].
+    - rewrite bytes_eqb_refl. reflexivity.
+    - rewrite (Hfresh (f_rkey f) (in_map f_rkey fs f Hin)). apply IH; assumption.
+  Qed.
+
+  Lemma missing_all_done : forall fs, missing_required fs (map (fun _ => true) fs) = false.
+  Proof. induction fs; [reflexivity|]. simpl. rewrite andb_false_r. exact IHfs. Qed.
+
+  Lemma tuple_asm : forall lv fs ss l,
+    Forall (fun f => asm_spec lv (f_type f)) fs ->
+    fields_bindable (fun f => bindable (f_type f)) fs ss = true ->
+    forallb (fun f => negb (f_opt f)) fs = true ->
+    fits_tuple (fun f => fits q lv n32 (f_type f)) fs ss l = true ->
+    exists gs, asm_tuple (fun f => asm q lv n32 (f_type f)) fs ss (map (fun f => zero_of (snd f)) ss) l
+               = Ok (gs, map (fun _ => true) fs)
+               /\ ok_fields (fun f => gv_ok q n32 (f_type f)) fs ss gs = true
+               /\ den_tuple (fun f => denote lv (f_type f)) fs gs = l.
+  Proof.
+    intros lv. induction fs as [|f fs IH]; intros ss l HF Hb Hno Hfit.
+    - destruct ss; simpl in Hb; try discriminate. destruct l; simpl in Hfit; try discriminate.
+      exists []. repeat split.
+    - destruct ss as [|[sn s] ss]; simpl in Hb; try discriminate.
+      destruct l as [|v l]; simpl in Hfit; try discriminate.
+      apply andb_prop in Hb. destruct Hb as [Hb1 Hb2].
+      apply andb_prop in Hfit. destruct Hfit as [Hf1 Hf2].
+      cbn [forallb] in Hno. apply andb_prop in Hno. destruct Hno as [Hn1 Hn2].
+      apply negb_true_iff in Hn1.
+      inversion HF as [|? ? HF1 HF2]; subst.
+      assert (Hf1' : fits_child (fits q lv n32 (f_type f)) (f_nul f) (if f_opt f then deref1 s else s) v = true)
+        by (rewrite Hn1; exact Hf1).
+      destruct (field_asm lv f s v HF1 Hb1 Hf1') as [g1 [Ha [Hok1 Hden1]]].
+      destruct (IH ss l HF2 Hb2 Hn2 Hf2) as [gs [Hrun [Hok Hden]]].
+      exists (g1 :: gs). cbn [asm_tuple map snd]. rewrite Ha. cbn [bind]. rewrite Hrun. cbn [bind fst snd].
+      split; [reflexivity|]. split.
+      + cbn [ok_fields]. rewrite Hok1, Hok. reflexivity.
+      + cbn [den_tuple]. rewrite Hden1, Hden. reflexivity.
+  Qed.
+
+  (* ---- unions -------------------------------------------------------------------------------- *)
+
+  Definition mkey (byname : bool) (m : bytes * sty) : bytes := if byname then sty_name (snd m) else fst m.
+
+  Lemma with_member_found : forall {R} byname k (body : nat -> bytes * sty -> R) none pre m post i,
+    (forall x, In x pre -> bytes_eqb k (mkey byname x) = false) -> bytes_eqb k (mkey byname m) = true ->
+    with_member byname k body none (pre ++ m :: post) i = body (i + length pre)%nat m.
+  Proof.
+    intros R byname k body none pre; induction pre as [|p pre IH]; intros m post i Hpre Hm.
+    - cbn [app with_member length]. unfold mkey in Hm. rewrite Hm. rewrite Nat.add_0_r. reflexivity.
+    - cbn [app with_member length]. pose proof (Hpre p (or_introl eq_refl)) as Hp. unfold mkey in Hp. rewrite Hp.
+      rewrite IH; [f_equal; lia | intros x Hx; apply Hpre; right; exact Hx | exact Hm].
+  Qed.
+
+  Lemma with_member_true_inv : forall byname k (body : nat -> bytes * sty -> bool) ms i,
+    with_member byname k body false ms i = true ->
+    exists pre m post, ms = pre ++ m :: post
+      /\ (forall x, In x pre -> bytes_eqb k (mkey byname x) = false)
+      /\ bytes_eqb k (mkey byname m) = true /\ body (i + length pre)%nat m = true.
+  Proof.
+    intros byname k body; induction ms as [|p ms IH]; intros i H; [discriminate|].
+    cbn [with_member] in H. destruct (bytes_eqb k (if byname then sty_name (snd p) else fst p)) eqn:E.
+    - exists [], p, ms. cbn [app length]. rewrite Nat.add_0_r. repeat split; try assumption. intros x [].
+    - destruct (IH (S i) H) as [pre [m [post [-> [Hpre [Hm Hb]]]]]].
+      exists (p :: pre), m, post. cbn [app length]. repeat split; try assumption.
+      + intros x [<-|Hx]; [exact E | apply Hpre; exact Hx].
+      + replace (i + S (length pre))%nat with (S i + length pre)%nat by lia. exact Hb.
+  Qed.
+
+  Lemma members_split : forall pre m post ss,
+    members_bindable (fun m => bindable (snd m)) (pre ++ m :: post) ss = true ->
+    exists spre sn ms1 spost, ss = spre ++ (sn, SPtr ms1) :: spost /\ length spre = length pre
+      /\ bindable (snd m) ms1 = true /\ is_any (snd m) = false
+      /\ members_bindable (fun m => bindable (snd m)) pre spre = true
+      /\ members_bindable (fun m => bindable (snd m)) post spost = true.
+  Proof.
+    induction pre as [|p pre IH]; intros m post ss H.
+    - cbn [app] in H. destruct ss as [|[sn s] ss]; simpl in H; try discriminate.
+      destruct s as [| | | | | | | ms1 | | |]; try discriminate.
+      apply andb3 in H. destruct H as [H1 [H2 H3]]. apply negb_true_iff in H2.
+      exists [], sn, ms1, ss. repeat split; assumption.
+    - cbn [app] in H. destruct ss as [|[sn s] ss]; simpl in H; try discriminate.
+      destruct s as [| | | | | | | ms0 | | |]; try discriminate.
+      apply andb3 in H. destruct H as [H1 [H2 H3]].
+      destruct (IH m post ss H3) as [spre [sn' [ms1 [spost [-> [Hl [Hb [Ha [Hp Hq]]]]]]]]].
+      exists ((sn, SPtr ms0) :: spre), sn', ms1, spost. cbn [app length].
+      repeat split; try assumption; try (f_equal; assumption).
+      simpl. rewrite H1, H2, Hp. reflexivity.
+  Qed.
+
+  Lemma ok_members_nil : forall (ok : bytes * sty -> shape -> gv -> bool) ms ss seen,
+    members_bindable (fun m => bindable (snd m)) ms ss = true ->
+    ok_members ok ms ss (map (fun _ => GNil) ss) seen = seen.
+  Proof.
+    induction ms as [|m ms IH]; intros ss seen H.
+    - destruct ss; simpl in H; try discriminate. reflexivity.
+    - destruct ss as [|[sn s] ss]; simpl in H; try discriminate.
+      destruct s; try discriminate. apply andb3 in H. destruct H as [_ [_ H]].
+      cbn [map ok_members]. apply IH. exact H.
+  Qed.
+
+  Lemma ok_members_at : forall (ok : bytes * sty -> shape -> gv -> bool) pre m post spre sn ms1 spost x,
+    members_bindable (fun m => bindable (snd m)) pre spre = true ->
+    members_bindable (fun m => bindable (snd m)) post spost = true ->
+    ok_members ok (pre ++ m :: post) (spre ++ (sn, SPtr ms1) :: spost)
+               (map (fun _ => GNil) spre ++ GPtr x :: map (fun _ => GNil) spost) false = ok m ms1 x.
+  Proof.
+    induction pre as [|p pre IH]; intros m post spre sn ms1 spost x Hp Hq.
+    - destruct spre; simpl in Hp; try discriminate.
+      cbn [app map ok_members negb andb]. rewrite (ok_members_nil ok post spost true Hq).
+      rewrite andb_true_r. reflexivity.
+    - destruct spre as [|[sn0 s0] spre]; simpl in Hp; try discriminate.
+      destruct s0; try discriminate. apply andb3 in Hp. destruct Hp as [_ [_ Hp]].
+      cbn [app map ok_members]. apply IH; assumption.
+  Qed.
+
+  Lemma den_union_at : forall (den : bytes * sty -> gv -> dm) wrapm pre m post (spre : list (bytes * shape)) x rest,
+    length spre = length pre ->
+    den_union den wrapm (pre ++ m :: post) (map (fun _ => GNil) spre ++ GPtr x :: rest) = wrapm m (den m x).
+  Proof.
+    induction pre as [|p pre IH]; intros m post spre x rest Hl.
+    - destruct spre; simpl in Hl; try discriminate. reflexivity.
+    - destruct spre; simpl in Hl; try discriminate. cbn [app map den_union]. apply IH. lia.
+  Qed.
+
+  Lemma union_set_at : forall (spre : list (bytes * shape)) e spost x,
+    union_set (spre ++ e :: spost) (length spre) x
+    = GStruct (map (fun _ => GNil) spre ++ GPtr x :: map (fun _ => GNil) spost).
+  Proof.
+    intros. unfold union_set. rewrite map_app. cbn [map].
+    rewrite <- (map_length (fun _ => GNil) spre). rewrite set_nth_app. reflexivity.
+  Qed.
+
+  (* one member assembled into the union struct *)
+  Lemma member_asm : forall lv byname k ms ss v wrapm,
+    Forall (fun m => asm_spec lv (snd m)) ms ->
+    members_bindable (fun m => bindable (snd m)) ms ss = true ->
+    with_member byname k (fun i m => fits_child (fits q lv n32 (snd m)) false (nth_shape i ss) v) false ms O = true ->
+    exists pre m post x,
+      ms = pre ++ m :: post /\ bytes_eqb k (mkey byname m) = true /\
+      with_member byname k
+        (fun i m => match nth_shape i ss with
+                    | SPtr ms1 => do x <- asm q lv n32 (snd m) ms1 (zero_of ms1) false v; Ok (union_set ss i x)
+                    | _ => Err PReflect
+                    end) (Err XUnion) ms O = Ok (union_set ss (length pre) x)
+      /\ ok_members (fun m => gv_ok q n32 (snd m)) ms ss
+                    (match union_set ss (length pre) x with GStruct gs => gs | _ => [] end) false = true
+      /\ den_union (fun m => denote lv (snd m)) wrapm ms
+                   (match union_set ss (length pre) x with GStruct gs => gs | _ => [] end) = wrapm m v.
+  Proof.
+    intros lv byname k ms ss v wrapm HF Hb Hfit.
+    destruct (with_member_true_inv byname k _ ms O Hfit) as [pre [m [post [Hms [Hpre [Hm Hbody]]]]]].
+    cbn [Nat.add] in Hbody. subst ms.
+    destruct (members_split pre m post ss Hb) as [spre [sn [ms1 [spost [Hss [Hl [Hbm [Hany [Hp Hq]]]]]]]]].
+    assert (Hnth : nth_shape (length pre) ss = SPtr ms1).
+    { unfold nth_shape. rewrite Hss, <- Hl, nth_app_here. reflexivity. }
+    rewrite Hnth in Hbody. unfold fits_child in Hbody.
+    assert (HFm : asm_spec lv (snd m)).
+    { rewrite Forall_forall in HF. apply HF. apply in_or_app. right. left. reflexivity. }
+    assert (Hloc : loc_ok (fun _ => bindable (snd m)) (snd m) ms1 = true).
+    { pose proof (bindable_noptr _ _ Hbm). destruct ms1; simpl in *; try assumption; discriminate. }
+    assert (Hd : deref1 ms1 = ms1) by (pose proof (bindable_noptr _ _ Hbm); destruct ms1; simpl in *; try reflexivity; discriminate).
+    assert (Hfit' : fits q lv n32 (snd m) (deref1 ms1) v = true).
+    { rewrite Hd. destruct v; try discriminate; exact Hbody. }
+    destruct (HFm ms1 v Hloc Hfit') as [x [Ha [Hok Hden]]].
+    exists pre, m, post, x. split; [reflexivity|]. split; [exact Hm|].
+    split; [|split].
+    - rewrite with_member_found; [| exact Hpre | exact Hm]. cbn [Nat.add].
+      rewrite Hnth, Ha. reflexivity.
+    - rewrite Hss at 2. rewrite <- Hl, union_set_at. rewrite Hss.
+      rewrite ok_members_at by assumption.
+      unfold ok_loc in Hok. pose proof (bindable_noptr _ _ Hbm). destruct ms1; simpl in *; try assumption; discriminate.
+    - rewrite Hss. rewrite <- Hl, union_set_at. rewrite den_union_at by assumption. rewrite Hden. reflexivity.
+  Qed.
+
+  (* ---- the theorem --------------------------------------------------------------------------- *)
+
+  Lemma inner_zero : forall s, inner s (zero_of s) = (deref1 s, zero_of (deref1 s)).
+  Proof. destruct s; reflexivity. Qed.
+
+  Lemma loc_ok_shape : forall t s, loc_ok (fun _ => bindable t) t s = true ->
+    bindable t (deref1 s) = true /\ (s = deref1 s \/ s = SPtr (deref1 s)).
+  Proof.
+    intros t s H. split; [apply loc_ok_direct; assumption|].
+    destruct s; simpl; auto.
+  Qed.
+
+  Lemma asm_list_unfold : forall lv n e nl s cur nul l,
+    asm q lv n32 (TList n e nl) s cur nul (DList l) =
+    let sc := inner s cur in
+    match fst sc with
+    | SSlice _ es =>
+        do gs <- mapM (asm q lv n32 e es (zero_of es) nl) l;
+        let old := match snd sc with GSlice o => o | _ => [] end in
+        Ok (put s (match old ++ gs with [] => snd sc | all => GSlice all end))
+    | _ => Err PReflect
+    end.
+  Proof. reflexivity. Qed.
+
+  Lemma asm_map_unfold : forall lv n kt vt nl s cur nul m,
+    asm q lv n32 (TMap n kt vt nl) s cur nul (DMap m) =
+    let sc := inner s cur in
+    match fst sc, snd sc with
+    | SStruct _ [(_, SSlice _ ks); (_, SGoMap mk mv)], GStruct [gk; gm] =>
+        let keys0 := match gk with GSlice l => l | _ => [] end in
+        let vals0 := match gm with GGoMap x => x | _ => [] end in
+        do kv <- asm_map_entries
+                   (fun k v =>
+                      do kg <- asm q lv n32 kt mk (zero_of mk) false (DString k);
+                      do vg <- asm q lv n32 vt mv (zero_of mv) nl v;
+                      Ok (kg, vg)) m keys0 vals0;
+        Ok (put s (GStruct [match fst kv with [] => gk | ks' => GSlice ks' end; GGoMap (snd kv)]))
+    | _, _ => Err PReflect
+    end.
+  Proof. reflexivity. Qed.
+
+  Definition finish (fs : list fld) (s : shape) (st : list gv * list bool) : bres gv :=
+    if missing_required fs (snd st) then Err XMissing else Ok (put s (GStruct (fst st))).
+
+  Lemma asm_struct_type_unfold : forall n fs r s cur nul m,
+    asm q LType n32 (TStruct n fs r) s cur nul (DMap m) =
+    let sc := inner s cur in
+    match fst sc, snd sc with
+    | SStruct _ ss, GStruct gs0 =>
+        do st <- asm_entries (fun k v gs done => by_name LType fs ss k v gs done) m gs0 (map (fun _ => false) fs);
+        finish fs s st
+    | _, _ => Err PReflect
+    end.
+  Proof. reflexivity. Qed.
+
+  Lemma asm_struct_map_unfold : forall n fs s cur nul m,
+    asm q LRepr n32 (TStruct n fs SRMap) s cur nul (DMap m) =
+    let sc := inner s cur in
+    match fst sc, snd sc with
+    | SStruct _ ss, GStruct gs0 =>
+        do st <- asm_entries (fun k v gs done =>
+                                by_name LRepr fs ss (match find_rkey k fs with Some x => x | None => k end) v gs done)
+                             m gs0 (map (fun _ => false) fs);
+        finish fs s st
+    | _, _ => Err PReflect
+    end.
+  Proof. reflexivity. Qed.
+
+  Lemma asm_struct_tuple_unfold : forall n fs s cur nul l,
+    asm q LRepr n32 (TStruct n fs SRTuple) s cur nul (DList l) =
+    let sc := inner s cur in
+    match fst sc, snd sc with
+    | SStruct _ ss, GStruct gs0 =>
+        do st <- asm_tuple (fun f => asm q LRepr n32 (f_type f)) fs ss gs0 l; finish fs s st
+    | _, _ => Err PReflect
+    end.
+  Proof. reflexivity. Qed.
+
+  Definition member_body lv (ss : list (bytes * shape)) (v : dm) (i : nat) (m : bytes * sty) : bres gv :=
+    match nth_shape i ss with
+    | SPtr ms1 => do x <- asm q lv n32 (snd m) ms1 (zero_of ms1) false v; Ok (union_set ss i x)
+    | _ => Err PReflect
+    end.
+
+  Lemma union_one_entry : forall (one : bytes -> dm -> bres gv) k v (s : shape),
+    (do o <- asm_union_entries one [(k, v)] None;
+     match o with Some g => Ok (put s g) | None => Err XUnion end)
+    = do g <- one k v; Ok (put s g).
+  Proof. intros. cbn [asm_union_entries]. destruct (one k v); reflexivity. Qed.
+
+  Lemma asm_union_type_unfold : forall n ms r s cur nul k v,
+    asm q LType n32 (TUnion n ms r) s cur nul (DMap [(k, v)]) =
+    match fst (inner s cur) with
+    | SStruct _ ss =>
+        do g <- with_member true k (member_body LType ss v) (Err XUnion) ms O; Ok (put s g)
+    | _ => Err PReflect
+    end.
+  Proof.
+    intros.
+    transitivity (match fst (inner s cur) with
+                  | SStruct _ ss =>
+                      do o <- asm_union_entries (fun k v => with_member true k (member_body LType ss v) (Err XUnion) ms O) [(k, v)] None;
+                      match o with Some g => Ok (put s g) | None => Err XUnion end
+                  | _ => Err PReflect
+                  end).
+    - destruct r; reflexivity.
+    - destruct (fst (inner s cur)); try reflexivity. apply union_one_entry.
+  Qed.
+
+  Lemma asm_union_keyed_unfold : forall n ms s cur nul k v,
+    asm q LRepr n32 (TUnion n ms URKeyed) s cur nul (DMap [(k, v)]) =
+    match fst (inner s cur) with
+    | SStruct _ ss =>
+        do g <- match find_member_by_disc k ms O with
+                | Some _ => with_member false k (member_body LRepr ss v) (Err XUnion) ms O
+                | None => with_member true k (member_body LRepr ss v) (Err XUnion) ms O
+                end; Ok (put s g)
+    | _ => Err PReflect
+    end.
+  Proof.
+    intros.
+    transitivity (match fst (inner s cur) with
+                  | SStruct _ ss =>
+                      do o <- asm_union_entries
+                                (fun k v => match find_member_by_disc k ms O with
+                                            | Some _ => with_member false k (member_body LRepr ss v) (Err XUnion) ms O
+                                            | None => with_member true k (member_body LRepr ss v) (Err XUnion) ms O
+                                            end) [(k, v)] None;
+                      match o with Some g => Ok (put s g) | None => Err XUnion end
+                  | _ => Err PReflect
+                  end).
+    - reflexivity.
+    - destruct (fst (inner s cur)); try reflexivity. apply union_one_entry.
+  Qed.
+
+  Lemma asm_union_kinded_unfold : forall n ms s cur nul d, d <> DNull ->
+    asm q LRepr n32 (TUnion n ms URKinded) s cur nul d =
+    match fst (inner s cur) with
+    | SStruct _ ss =>
+        match s with
+        | SPtr _ => Err PReflect
+        | _ => with_member false (kind_name d) (member_body LRepr ss d) (Err XWrongKind) ms O
+        end
+    | _ => Err PReflect
+    end.
+  Proof. intros. destruct d; try congruence; reflexivity. Qed.
+
+  Lemma find_disc_some : forall k ms i pre m post,
+    ms = pre ++ m :: post -> bytes_eqb k (fst m) = true -> find_member_by_disc k ms i <> None.
+  Proof.
+    intros k ms i pre; revert ms i. induction pre as [|[pd pt] pre IH]; intros ms i m post -> Hm.
+    - destruct m as [d t]. cbn [app find_member_by_disc]. simpl in Hm. rewrite Hm. discriminate.
+    - cbn [app find_member_by_disc]. destruct (bytes_eqb k pd); [discriminate|].
+      eapply IH; [reflexivity | exact Hm].
+  Qed.
+
+  Lemma with_member_ext_bool : forall byname k (b1 b2 : nat -> bytes * sty -> bool) none ms i,
+    (forall i m, b1 i m = b2 i m) ->
+    with_member byname k b1 none ms i = with_member byname k b2 none ms i.
+  Proof.
+    intros byname k b1 b2 none ms; induction ms as [|p ms IH]; intros i H; [reflexivity|].
+    cbn [with_member]. rewrite H. rewrite (IH (S i) H). reflexivity.
+  Qed.
+
+  Lemma keys_slice : forall (l : list gv), l <> [] ->
+    (match l with [] => GNil | g :: r => GSlice (g :: r) end) = GSlice l.
+  Proof. intros l H; destruct l; [congruence | reflexivity]. Qed.
+
+  Theorem asm_denote : forall lv t, asm_spec lv t.
+  Proof.
+    intros lv. induction t using sty_ind2; unfold asm_spec; intros s d Hl Hf;
+      destruct (loc_ok_shape _ _ Hl) as [Hb Hsh].
+    - (* bool *)
+      destruct (deref1 s) eqn:Es; simpl in Hb; try discriminate. destruct d; simpl in Hf; try discriminate.
+      eexists. split; [reflexivity|]. apply put_built; [assumption | rewrite Es; reflexivity | reflexivity].
+    - (* int *)
+      destruct (deref1 s) eqn:Es; simpl in Hb; try discriminate. destruct d; simpl in Hf; try discriminate.
+      exists (put s (GInt z)). split.
+      + cbn [asm asm_scalar]. apply (asm_int_ok s k z Hl Es Hf).
+      + apply put_built; [assumption | rewrite Es; exact Hf | reflexivity].
+    - (* float *)
+      destruct (deref1 s) eqn:Es; simpl in Hb; try discriminate.
+      destruct single; destruct d; simpl in Hf; try discriminate.
+      + apply N.eqb_eq in Hf.
+        exists (put s (GFloat bits)). split.
+        * cbn [asm asm_scalar]. rewrite Es, Hf. reflexivity.
+        * apply put_built; [assumption | rewrite Es; simpl; rewrite Hf; apply N.eqb_refl | reflexivity].
+      + exists (put s (GFloat bits)). split.
+        * cbn [asm asm_scalar]. rewrite Es. reflexivity.
+        * apply put_built; [assumption | rewrite Es; reflexivity | reflexivity].
+    - (* string *)
+      destruct (deref1 s) eqn:Es; simpl in Hb; try discriminate. destruct d; simpl in Hf; try discriminate.
+      eexists. split; [reflexivity|]. apply put_built; [assumption | rewrite Es; reflexivity | reflexivity].
+    - (* bytes *)
+      destruct (deref1 s) eqn:Es; simpl in Hb; try discriminate. destruct d; simpl in Hf; try discriminate.
+      eexists. split; [reflexivity|].
+      apply put_built; [assumption | rewrite Es; destruct s0; reflexivity | destruct s0; reflexivity].
+    - (* link *)
+      destruct (deref1 s) eqn:Es; simpl in Hb; try discriminate. destruct d; simpl in Hf; try discriminate.
+      eexists. split; [reflexivity|]. apply put_built; [assumption | rewrite Es; reflexivity | reflexivity].
+    - (* any *)
+      destruct (deref1 s) eqn:Es; simpl in Hb; try discriminate.
+      destruct d; simpl in Hf; try discriminate;
+        (eexists; split; [reflexivity|]; apply put_built; [assumption | rewrite Es; reflexivity | reflexivity]).
+    - (* list *)
+      destruct (deref1 s) as [| | | | | | | |sn es| |] eqn:Es; simpl in Hb; try discriminate.
+      destruct d; simpl in Hf; try discriminate.
+      assert (HF : Forall (fun x => exists g, asm q lv n32 t es (zero_of es) nl x = Ok g
+                                        /\ ok_child (gv_ok q n32 t) nl es g = true
+                                        /\ den_child (denote lv t) nl g = x) l).
+      { apply forallb_Forall in Hf. eapply Forall_impl; [|exact Hf].
+        intros x Hx. apply child_asm; assumption. }
+      destruct (mapM_exists _ (fun g => ok_child (gv_ok q n32 t) nl es g = true) (den_child (denote lv t) nl) l HF)
+        as [gs [Hrun [Hoks Hmap]]].
+      rewrite asm_list_unfold, inner_zero, Es. cbn [fst snd zero_of]. rewrite Hrun. cbn [bind app].
+      eexists. split; [reflexivity|].
+      apply put_built; [assumption | |].
+      + rewrite Es. destruct gs; [reflexivity|]. cbn [gv_ok].
+        apply forallb_forall. rewrite Forall_forall in Hoks. exact Hoks.
+      + destruct gs; simpl in *; [subst; reflexivity|]. rewrite <- Hmap. reflexivity.
+    - (* map *)
+      destruct (deref1 s) as [| | | | | | | | |sn fs|] eqn:Es; simpl in Hb; try discriminate.
+      destruct fs as [|[k1 s1] fs]; try discriminate.
+      destruct fs as [|[k2 s2] fs]; try (destruct s1 as [| | | | | | | |? [| | | | | | | | | |]| |]; discriminate).
+      destruct s1 as [| | | | | | | |n1 ks| |]; try discriminate.
+      destruct ks; try discriminate.
+      destruct s2 as [| | | | | | | | | |mk mv]; try discriminate.
+      destruct mk; try discriminate.
+      destruct fs; try discriminate.
+      apply andb_prop in Hb. destruct Hb as [Hk Hv].
+      destruct t1; try discriminate.
+      destruct d; simpl in Hf; try discriminate.
+      apply andb_prop in Hf. destruct Hf as [Hnd Hfv].
+      set (one := fun (k : bytes) (v : dm) =>
+                    do kg <- asm q lv n32 TString SString (zero_of SString) false (DString k);
+                    do vg <- asm q lv n32 t2 mv (zero_of mv) nl v; Ok (kg, vg)).
+      assert (HF : Forall (fun kv => exists vg, one (fst kv) (snd kv) = Ok (GString (fst kv), vg)
+                                       /\ ok_child (gv_ok q n32 t2) nl mv vg = true
+                                       /\ den_child (denote lv t2) nl vg = snd kv) m).
+      { apply forallb_Forall in Hfv. eapply Forall_impl; [|exact Hfv].
+        intros [k v] Hx. simpl in Hx.
+        destruct (child_asm lv t2 nl mv v IHt2 Hv Hx) as [vg [Ha [Hok Hden]]].
+        exists vg. unfold one. cbn [fst snd]. rewrite Ha. repeat split; assumption. }
+      destruct (map_entries_ok one _ _ m [] [] HF Hnd) as [vs [Hrun [_ Hall]]].
+      rewrite asm_map_unfold, inner_zero, Es.
+      change (zero_of (SStruct sn [(k1, SSlice n1 SString); (k2, SGoMap SString mv)])) with (GStruct [GNil; GNil]).
+      cbn [fst snd]. fold one. rewrite Hrun. cbn [bind fst snd app].
+      eexists. split; [reflexivity|].
+      rewrite Forall_forall in Hall.
+      apply put_built; [assumption | |].
+      + rewrite Es. cbn [gv_ok].
+        destruct m as [|kv0 m0]; [reflexivity|].
+        set (mm := kv0 :: m0) in *.
+        rewrite (keys_slice (map GString (map fst mm))) by (subst mm; discriminate).
+        cbn [andb]. rewrite (gv_nodup_strings _ Hnd). cbn [andb].
+        apply andb_true_intro. split.
+        * apply forallb_forall. intros x Hx. apply in_map_iff in Hx. destruct Hx as [k [<- _]]. reflexivity.
+        * apply forallb_forall. intros x Hx. apply in_map_iff in Hx. destruct Hx as [k [<- Hk']].
+          apply in_map_iff in Hk'. destruct Hk' as [[k0 v0] [<- Hin]].
+          destruct (Hall _ Hin) as [vg [Hg [Hok _]]]. cbn [fst] in *. rewrite Hg. exact Hok.
+      + cbn [denote unptr].
+        destruct m as [|kv0 m0]; [reflexivity|].
+        set (mm := kv0 :: m0) in *.
+        rewrite (keys_slice (map GString (map fst mm))) by (subst mm; discriminate).
+        f_equal. rewrite map_map, map_map.
+        rewrite <- (map_id mm) at 2. apply map_ext_in. intros [k v] Hin.
+        destruct (Hall _ Hin) as [vg [Hg [_ Hden]]]. cbn [fst snd] in *. rewrite Hg, Hden. reflexivity.
+    - (* struct *)
+      destruct (deref1 s) as [| | | | | | | | |sn ss|] eqn:Es; simpl in Hb; try discriminate.
+      apply andb_prop in Hb. destruct Hb as [Hb Hr].
+      apply andb3 in Hb. destruct Hb as [Hb [Hnn Hnr]].
+      assert (Hz : zero_of (SStruct sn ss) = GStruct (map (fun f => zero_of (snd f)) ss)) by reflexivity.
+      destruct lv.
+      + (* type level: a map of field names *)
+        simpl in Hf. destruct d; try (destruct r; discriminate).
+        assert (Hf' : fits_fields (fun f => fits q LType n32 (f_type f)) f_name fs ss m = true)
+          by (destruct r; exact Hf).
+        destruct (struct_entries LType f_name (fun k => k) fs ss Hnn (fun f _ => eq_refl)
+                    fs [] [] ss [] [] m eq_refl eq_refl eq_refl eq_refl eq_refl H Hb Hf')
+          as [gpost [dpost [Hrun [Hok [Hden Hmiss]]]]].
+        cbn [app] in Hrun.
+        rewrite asm_struct_type_unfold, inner_zero, Es, Hz. cbn [fst snd]. rewrite Hrun. cbn [bind].
+        unfold finish. cbn [fst snd]. rewrite Hmiss.
+        eexists. split; [reflexivity|].
+        apply put_built; [assumption | rewrite Es; exact Hok |].
+        cbn [denote unptr]. destruct r; rewrite Hden; reflexivity.
+      + destruct r.
+        * (* representation: map of (renamed) keys *)
+          simpl in Hf. destruct d; try discriminate.
+          assert (Hkm : forall f, In f fs ->
+                     (fun k => match find_rkey k fs with Some x => x | None => k end) (f_rkey f) = f_name f).
+          { intros f Hin. cbn beta. rewrite (find_rkey_found fs Hnr f Hin). reflexivity. }
+          destruct (struct_entries LRepr f_rkey _ fs ss Hnn Hkm
+                      fs [] [] ss [] [] m eq_refl eq_refl eq_refl eq_refl eq_refl H Hb Hf)
+            as [gpost [dpost [Hrun [Hok [Hden Hmiss]]]]].
+          cbn [app] in Hrun.
+          rewrite asm_struct_map_unfold, inner_zero, Es, Hz. cbn [fst snd]. rewrite Hrun. cbn [bind].
+          unfold finish. cbn [fst snd]. rewrite Hmiss.
+          eexists. split; [reflexivity|].
+          apply put_built; [assumption | rewrite Es; exact Hok |].
+          cbn [denote unptr]. rewrite Hden. reflexivity.
+        * (* representation: tuple *)
+          simpl in Hf. destruct d; try discriminate.
+          destruct (tuple_asm LRepr fs ss l H Hb Hr Hf) as [gs [Hrun [Hok Hden]]].
+          rewrite asm_struct_tuple_unfold, inner_zero, Es, Hz. cbn [fst snd]. rewrite Hrun. cbn [bind].
+          unfold finish. cbn [fst snd]. rewrite missing_all_done.
+          eexists. split; [reflexivity|].
+          apply put_built; [assumption | rewrite Es; exact Hok |].
+          cbn [denote unptr]. rewrite Hden. reflexivity.
+    - (* union *)
+      destruct (deref1 s) as [| | | | | | | | |sn ss|] eqn:Es; simpl in Hb; try discriminate.
+      apply andb3 in Hb. destruct Hb as [Hb [Hnn Hnd]].
+      assert (Hinner : fst (inner s (zero_of s)) = SStruct sn ss) by (rewrite inner_zero, Es; reflexivity).
+      destruct lv.
+      + simpl in Hf. destruct d; try (destruct r; discriminate).
+        destruct m as [|[k v] [|]]; try (destruct r; discriminate).
+        assert (Hf' : with_member true k (fun i m => fits_child (fits q LType n32 (snd m)) false (nth_shape i ss) v) false ms 0 = true)
+          by (destruct r; exact Hf).
+        destruct (member_asm LType true k ms ss v (fun m d => DMap [(sty_name (snd m), d)]) H Hb Hf')
+          as [pre [m [post [x [Hms [Hk [Hrun [Hok Hden]]]]]]]].
+        rewrite asm_union_type_unfold, Hinner. unfold member_body. rewrite Hrun. cbn [bind].
+        eexists. split; [reflexivity|].
+        apply put_built; [assumption | rewrite Es; unfold union_set in *; exact Hok |].
+        unfold union_set in *. cbn [denote unptr]. 
+        assert (Hw : (fun (m0 : bytes * sty) (d : dm) => match r with URKeyed | URKinded => DMap [(sty_name (snd m0), d)] end)
+                     = (fun m0 d => DMap [(sty_name (snd m0), d)])) by (destruct r; reflexivity).
+        apply bytes_eqb_eq in Hk. unfold mkey in Hk. subst k.
+        destruct r; exact Hden.
+      + destruct r.
+        * simpl in Hf. destruct d; try discriminate.
+          destruct m as [|[k v] [|]]; try discriminate.
+          destruct (member_asm LRepr false k ms ss v (fun m d => DMap [(fst m, d)]) H Hb Hf)
+            as [pre [m [post [x [Hms [Hk [Hrun [Hok Hden]]]]]]]].
+          rewrite asm_union_keyed_unfold, Hinner.
+          pose proof (find_disc_some k ms 0 pre m post Hms Hk) as Hsome.
+          destruct (find_member_by_disc k ms 0); [|congruence].
+          unfold member_body. rewrite Hrun. cbn [bind].
+          eexists. split; [reflexivity|].
+          apply put_built; [assumption | rewrite Es; unfold union_set in *; exact Hok |].
+          unfold union_set in *. cbn [denote unptr].
+          apply bytes_eqb_eq in Hk. unfold mkey in Hk. subst k. exact Hden.
+        * assert (Hd : d <> DNull) by (intros ->; simpl in Hf; discriminate).
+          assert (Hf' : with_member false (kind_name d)
+                          (fun i m => fits_child (fits q LRepr n32 (snd m)) false (nth_shape i ss) d) false ms 0 = true).
+          { simpl in Hf. destruct d; try congruence;
+              (erewrite with_member_ext_bool; [exact Hf|]; intros i m; unfold fits_child;
+               destruct (nth_shape i ss); reflexivity). }
+          destruct (member_asm LRepr false (kind_name d) ms ss d (fun m d => d) H Hb Hf')
+            as [pre [m [post [x [Hms [Hk [Hrun [Hok Hden]]]]]]]].
+          rewrite asm_union_kinded_unfold by assumption. rewrite Hinner.
+          assert (Hs : s = SStruct sn ss).
+          { simpl in Hl. destruct s; simpl in Es; try discriminate; try exact Es.
+            simpl in Hl. rewrite andb_false_r in Hl. discriminate. }
+          rewrite Hs. unfold member_body. rewrite Hrun.
+          eexists. split; [reflexivity|].
+          unfold built. rewrite <- Hs at 1. 
+          split.
+          -- rewrite Hs. unfold union_set in *. exact Hok.
+          -- unfold union_set in *. cbn [denote unptr]. exact Hden.
+    - (* enum *)
+      destruct (deref1 s) eqn:Es; simpl in Hb; try discriminate.
+      destruct lv.
+      + simpl in Hf. destruct d; try (destruct r; discriminate).
+        assert (He : enum_by_name s0 ms <> None) by (destruct r; destruct (enum_by_name s0 ms); congruence).
+        exists (put s (GString s0)). split.
+        * cbn [asm asm_enum]. rewrite Es. destruct r; reflexivity.
+        * apply put_built; [assumption | rewrite Es; simpl; destruct (enum_by_name s0 ms); congruence |].
+          simpl. unfold den_enum. reflexivity.
+      + destruct r.
+        * simpl in Hf. destruct d; try discriminate.
+          destruct (enum_by_repr s0 ms) as [m|] eqn:Er; try discriminate.
+          destruct (enum_by_repr_name ms s0 m Hb Er) as [ir Hn].
+          exists (put s (GString m)). split.
+          -- cbn [asm asm_enum]. rewrite Er, Es. reflexivity.
+          -- apply put_built; [assumption | rewrite Es; simpl; rewrite Hn; reflexivity |].
+             simpl. unfold den_enum. rewrite Hn. reflexivity.
+        * simpl in Hf. destruct d; try discriminate.
+          apply andb_prop in Hf. destruct Hf as [Hlt Hf].
+          destruct (enum_by_int z ms) as [m|] eqn:Er; try discriminate.
+          destruct (enum_by_int_name ms z m Hb Er) as [sr Hn].
+          exists (put s (GString m)). split.
+          -- cbn [asm asm_enum].
+             assert ((two63z <=? z)%Z = false) as -> by (apply Z.leb_gt; apply Z.ltb_lt in Hlt; exact Hlt).
+             rewrite Er, Es. reflexivity.
+          -- apply put_built; [assumption | rewrite Es; simpl; rewrite Hn; reflexivity |].
+             simpl. unfold den_enum. rewrite Hn. reflexivity.
+  Qed.
 End AsmFaithful.
